@@ -68,7 +68,23 @@ def check_index_py(prog: Prog, view: PyView, kind, names):
     ns = view.namespace() if view.backend == "numpy" else None
 
     def confirm_known(inputs, model):
-        return True, "index function accepts/refuses a wrong set of names (solver witness over z3 strings)"
+        strs = (model or {}).get("__strings__", {})
+        if ns is None:
+            return True, f"index function accepts/refuses a wrong set of names (solver witness {strs})"
+        out = {}
+        for k, v in strs.items():
+            try:
+                out[k] = ns[fn](v)
+            except KeyError:
+                out[k] = "KeyError"
+        k1, k2 = strs.get(f"K_{kind}"), strs.get(f"K2_{kind}")
+        bad = False
+        if k1 is not None:
+            r = out[f"K_{kind}"]
+            bad = (k1 in names and not (isinstance(r, int) and 0 <= r < n)) or (k1 not in names and r != "KeyError")
+            if k2 is not None and k1 in names and k2 in names and k1 != k2 and r == out[f"K2_{kind}"]:
+                bad = True
+        return bad, f"real {fn}: " + ", ".join(f"{fn}({v!r}) -> {out[k]}" for k, v in strs.items())
 
     prog.holds(label + "|known->in-range", [known], z3.And(z3.Not(r1.err), r1.term >= 0, r1.term < n),
                confirm=confirm_known, what=f"{fn}: every declared name maps into 0..{n-1}")
@@ -95,7 +111,22 @@ def check_index_c(prog: Prog, view: CView, kind, names):
     n = len(names)
     known = z3.Or(*[K == z3.StringVal(x) for x in names]) if names else z3.BoolVal(False)
     known2 = z3.Or(*[K2 == z3.StringVal(x) for x in names]) if names else z3.BoolVal(False)
-    cf = lambda inputs, model: (True, "C index function accepts/refuses a wrong set of names")
+    def cf(inputs, model):
+        import ctypes
+        strs = (model or {}).get("__strings__", {})
+        lib = view.lib()
+        f = getattr(lib, fn)
+        f.restype = ctypes.c_int
+        vals = {k: f(v.encode("latin-1", "replace")) for k, v in strs.items()}
+        k1, k2 = strs.get(f"K_{kind}"), strs.get(f"K2_{kind}")
+        bad = False
+        if k1 is not None:
+            r = vals[f"K_{kind}"]
+            bad = (k1 in names and not (0 <= r < n)) or (k1 not in names and r != -1)
+            if k2 is not None and k1 in names and k2 in names and k1 != k2 and r == vals[f"K2_{kind}"]:
+                bad = True
+        return bad, f"real compiled {fn}: " + ", ".join(f"{fn}({v!r}) = {vals[k]}" for k, v in strs.items())
+
     prog.holds(label + "|known->in-range", [known], z3.And(r1 >= 0, r1 < n), confirm=cf, what=f"{fn}: declared names map into 0..{n-1}")
     prog.holds(label + "|unknown->refused", [z3.Not(known)], r1 == -1, confirm=cf, what=f"{fn}: other strings give -1")
     prog.holds(label + "|injective", [known, known2, K != K2], r1 != r2, confirm=cf, what=f"{fn}: injective")
